@@ -71,7 +71,7 @@ fn main() {
 fn supervise(args: &[String]) -> i32 {
     use std::process::Command;
     let id = args[1].as_str();
-    let exe = std::env::current_exe().expect("current exe");
+    let exe = std::path::PathBuf::from("/proc/self/exe"); // the running binary itself, even if the file was rebuilt meanwhile
     let out = report::out_dir();
     let _ = std::fs::create_dir_all(format!("{out}/target"));
     // one journal per supervising process, so two runs of the same check cannot truncate each other's file
